@@ -16,6 +16,7 @@ import SygmaModel.Props.C01
 import SygmaModel.Props.C02
 import SygmaModel.Props.C14
 import SygmaModel.Props.C03
+import SygmaModel.Props.C16
 namespace Sygma.Pipeline
 open Sygma
 
@@ -180,6 +181,51 @@ theorem sub_committed_is_pending (ds : List (C01.Proposal × Option Bool)) :
     have := subDelivery_wanted [] ds
     rw [subDelivery_eq]
     simpa [C03.wanted] using this
+
+/-- **Bitcoin destination.** Whatever the address decoder, fee quotes, UTXO listing and metadata upload: if the
+    executor builds a withdrawal transaction for a delivery (within the no-wrap bounds of C16), then for every
+    position k of the delivery the k-th output pays exactly the relayed amount to the script of the relayed recipient —
+    and for a well-formed fungible deposit (C01) that amount is the canonical one (deposit amount ÷ 10^10 for an
+    EVM/Substrate source, the satoshi value itself for a Bitcoin source). -/
+theorem btc_withdrawal_pays_relayed (dec : Bytes → Option Bytes) (i : C16.Inp) (ps : List C01.Proposal)
+    (hps : i.props = btcPrps dec ps) (hwf : C16.WF i) (tx : C16.Tx) (htx : C16.rawTx i = some tx)
+    (k : Nat) (p : C01.Proposal) (a : Nat) (r : Bytes) (hk : ps[k]? = some p) (hd : p.data = .btc a r) :
+    ∃ s, dec r = some s ∧ tx.outs[k]? = some ⟨(a : Int), s⟩ := by
+  have hP : C16.P16 i (some tx) := by
+    have := C16.rawTx_P16 i hwf
+    rwa [htx] at this
+  have hkp : i.props[k]? = some ⟨a, dec r⟩ := by
+    rw [hps]; simp [btcPrps, hk, hd]
+  obtain ⟨s, hs, ho⟩ := C16.each_proposal_paid_once i tx hP k ⟨a, dec r⟩ hkp
+  exact ⟨s, hs, ho⟩
+
+/-- … and composed with C01: the k-th deposit of a well-formed range relayed to a Bitcoin destination is paid its
+    canonical amount at output k. -/
+theorem btc_end_to_end (dec : Bytes → Option Bytes) (i : C16.Inp) (ins : List C01.Input)
+    (es : List C01.Proposal) (hcan : ins.map canon = es.map some)
+    (hps : i.props = btcPrps dec es) (hwf : C16.WF i) (tx : C16.Tx) (htx : C16.rawTx i = some tx)
+    (k : Nat) (inp : C01.Input) (a : Nat) (r : Bytes) (hk : ins[k]? = some inp)
+    (hd : ∀ e, canon inp = some e → e.data = .btc a r) :
+    C01.relay inp = .ok (es[k]?.getD ⟨inp.id, .btc a r, none⟩) ∧
+    ∃ s, dec r = some s ∧ tx.outs[k]? = some ⟨(a : Int), s⟩ := by
+  have hlen : ins.length = es.length := by simpa using congrArg List.length hcan
+  have hkl : k < ins.length := by
+    rcases List.getElem?_eq_some_iff.1 hk with ⟨h, _⟩; exact h
+  have hke : k < es.length := by omega
+  have hce : canon inp = some es[k] := by
+    have h1 := congrArg (fun l => l[k]?) hcan
+    simp only [List.getElem?_map, hk, Option.map_some, List.getElem?_eq_getElem hke] at h1
+    exact Option.some.inj h1
+  have hdata := hd _ hce
+  constructor
+  · have hexp : C01.expected inp = some (.ok es[k]) := by
+      unfold canon at hce
+      cases he : C01.expected inp with
+      | none => simp [he] at hce
+      | some o => cases o <;> simp_all
+    have := C01.expected_sound inp _ hexp
+    simpa [List.getElem?_eq_getElem hke] using this
+  · exact btc_withdrawal_pays_relayed dec i es hps hwf tx htx k es[k] a r (List.getElem?_eq_getElem hke) hdata
 
 /-- non-vacuity: a delivery of three proposals, the middle one executed, cap reached after each — two signed
     batches committing to the first and the third -/
